@@ -2,7 +2,7 @@
    peers that deliver each player's inputs in frame order, no spectators, dense saving) no modelled
    assert fires, whatever the interleaving of API calls and arriving inputs. *)
 From GGRS Require Import Base Consts Queue QueueProofs QueueTheorems Sync P2P Session SessionProofs.
-From Coq Require Import ZifyBool ZifyNat ZifyN.
+From Coq Require Import ZifyBool ZifyNat ZifyN Sorting.Sorted.
 Ltac Zify.zify_post_hook ::= Z.div_mod_to_equations.
 Open Scope Z_scope.
 
@@ -319,6 +319,357 @@ Proof.
     + apply send_ready_go_ok.
 Qed.
 
+(* ---------- the local handles ---------- *)
+Lemma zrange_in : forall n a h, In h (zrange_from a n) <-> a <= h < a + Z.of_nat n.
+Proof.
+  induction n as [|n IH]; intros a h; cbn [zrange_from In].
+  - split; [intros []|lia].
+  - rewrite IH. lia.
+Qed.
+
+Lemma local_handles_spec : forall p h, ps_nplayers p = Z.of_nat (length (ps_kinds p)) ->
+  (In h (local_handles p) <-> 0 <= h < ps_nplayers p /\ nth_error (ps_kinds p) (Z.to_nat h) = Some KLocal).
+Proof.
+  intros p h Hn. unfold local_handles. rewrite filter_In, zrange_in. unfold kind_at.
+  split.
+  - intros (Hr & Hk). assert ((h <? 0) = false) as E1 by lia. assert ((h <? ps_nplayers p) = true) as E2 by lia.
+    rewrite E1, E2 in Hk. split; [lia|]. destruct (nth_error (ps_kinds p) (Z.to_nat h)) as [[| |]|]; try discriminate. reflexivity.
+  - intros (Hr & Hk). split; [lia|]. assert ((h <? 0) = false) as -> by lia. assert ((h <? ps_nplayers p) = true) as -> by lia.
+    rewrite Hk. reflexivity.
+Qed.
+
+Lemma zrange_nodup : forall n a, NoDup (zrange_from a n).
+Proof.
+  induction n as [|n IH]; intros a; cbn [zrange_from]; constructor; [|apply IH].
+  rewrite zrange_in. lia.
+Qed.
+Lemma local_handles_nodup : forall p, NoDup (local_handles p).
+Proof. intros p. unfold local_handles. apply NoDup_filter. apply zrange_nodup. Qed.
+
+
+(* ---------- what is queued for the remotes: outgoing_local_inputs as a sorted map ---------- *)
+Definition keys_sorted {A} (l : list (Z * A)) : Prop := StronglySorted (fun a b => fst a < fst b) l.
+
+Lemma assoc_get_above {A} : forall (l : list (Z * A)) k, Forall (fun b => k < fst b) l -> assoc_get l k = None.
+Proof.
+  induction l as [|[k0 v0] l IH]; intros k H; cbn [assoc_get]; [reflexivity|].
+  inversion H as [|? ? H1 H2]; subst. cbn [fst] in H1. destruct (Z.eqb_spec k0 k); [lia|]. apply IH. exact H2.
+Qed.
+
+Lemma assoc_put_Forall {A} (P : Z * A -> Prop) : forall l k v, Forall P l -> P (k, v) -> Forall P (assoc_put l k v).
+Proof.
+  induction l as [|[k0 v0] l IH]; intros k v H Hk; cbn [assoc_put].
+  - constructor; [exact Hk|constructor].
+  - inversion H as [|? ? H1 H2]; subst.
+    destruct (k =? k0); [constructor; assumption|].
+    destruct (k <? k0); [constructor; [exact Hk|exact H]|].
+    constructor; [exact H1|apply IH; assumption].
+Qed.
+
+Lemma assoc_put_sorted {A} : forall (l : list (Z * A)) k v, keys_sorted l -> keys_sorted (assoc_put l k v).
+Proof.
+  unfold keys_sorted. induction l as [|[k0 v0] l IH]; intros k v H; cbn [assoc_put].
+  - constructor; constructor.
+  - inversion H as [|? ? H1 H2]; subst.
+    destruct (Z.eqb_spec k k0) as [->|Hne]; [constructor; assumption|].
+    destruct (Z.ltb_spec k k0).
+    + constructor; [exact H|]. constructor; [cbn [fst]; lia|].
+      eapply Forall_impl; [|exact H2]. intros b Hb. cbn [fst] in *. lia.
+    + constructor; [apply IH; exact H1|]. apply assoc_put_Forall; [exact H2|cbn [fst]; lia].
+Qed.
+
+Lemma assoc_del_Forall {A} (P : Z * A -> Prop) : forall l k, Forall P l -> Forall P (assoc_del l k).
+Proof.
+  induction l as [|[k0 v0] l IH]; intros k H; cbn [assoc_del]; [constructor|].
+  inversion H as [|? ? H1 H2]; subst. destruct (k0 =? k); [exact H2|]. constructor; [exact H1|apply IH; exact H2].
+Qed.
+
+Lemma assoc_del_sorted {A} : forall (l : list (Z * A)) k, keys_sorted l -> keys_sorted (assoc_del l k).
+Proof.
+  unfold keys_sorted. induction l as [|[k0 v0] l IH]; intros k H; cbn [assoc_del]; [constructor|].
+  inversion H as [|? ? H1 H2]; subst. destruct (k0 =? k); [exact H1|].
+  constructor; [apply IH; exact H1|apply assoc_del_Forall; exact H2].
+Qed.
+
+Lemma assoc_get_del {A} : forall (l : list (Z * A)) k k', keys_sorted l ->
+  assoc_get (assoc_del l k) k' = if k =? k' then None else assoc_get l k'.
+Proof.
+  unfold keys_sorted. induction l as [|[k0 v0] l IH]; intros k k' H; cbn [assoc_del assoc_get].
+  - destruct (k =? k'); reflexivity.
+  - inversion H as [|? ? H1 H2]; subst.
+    destruct (Z.eqb_spec k0 k) as [->|Hne].
+    + destruct (Z.eqb_spec k k') as [<-|Hne']; [apply assoc_get_above; exact H2|reflexivity].
+    + cbn [assoc_get]. destruct (Z.eqb_spec k0 k') as [->|Hne'].
+      * destruct (Z.eqb_spec k k'); [congruence|reflexivity].
+      * apply IH. exact H1.
+Qed.
+
+Lemma find_first_sorted {A} : forall (l : list (Z * A)) P f m, keys_sorted l -> find P l = Some (f, m) ->
+  assoc_get l f = Some m /\ P (f, m) = true /\
+  forall f' m', f' < f -> assoc_get l f' = Some m' -> P (f', m') = false.
+Proof.
+  unfold keys_sorted. induction l as [|[k0 v0] l IH]; intros P f m H Hf; cbn [find assoc_get] in *; [discriminate|].
+  inversion H as [|? ? H1 H2]; subst.
+  destruct (P (k0, v0)) eqn:EP.
+  - injection Hf as -> ->. rewrite Z.eqb_refl. split; [reflexivity|]. split; [exact EP|].
+    intros f' m' Hlt Hg. destruct (Z.eqb_spec f f'); [lia|]. rewrite assoc_get_above in Hg; [discriminate|].
+    eapply Forall_impl; [|exact H2]. intros b Hb. cbn [fst] in *. lia.
+  - destruct (IH P f m H1 Hf) as (G1 & G2 & G3).
+    assert (Hk : k0 < f).
+    { clear - G1 H2. induction l as [|[k1 v1] l IHl]; cbn [assoc_get] in G1; [discriminate|].
+      inversion H2 as [|? ? A0 B0]; subst. cbn [fst] in A0. destruct (Z.eqb_spec k1 f); [lia|]. apply IHl; assumption. }
+    destruct (Z.eqb_spec k0 f); [lia|]. split; [exact G1|]. split; [exact G2|].
+    intros f' m' Hlt Hg. destruct (Z.eqb_spec k0 f') as [<-|Hne]; [injection Hg as <-; exact EP|].
+    eapply G3; eassumption.
+Qed.
+
+Definition out_entry (p : p2p) (f h : Z) : option pinput :=
+  match assoc_get (ps_outgoing p) f with Some m => assoc_get m h | None => None end.
+
+(* the invariant of outgoing_local_inputs / last_sent_outgoing_input_frame against the input histories:
+   for every local player exactly the frames above the last one sent that the player's queue holds are
+   queued, each with the value the queue holds for it *)
+Record OI (p : p2p) (gs : list ghost) : Prop := {
+  oi_sorted : keys_sorted (ps_outgoing p);
+  oi_last : NULL <= ps_last_sent_out p;
+  oi_keys : forall f m, assoc_get (ps_outgoing p) f = Some m -> ps_last_sent_out p < f;
+  oi_local : forall h gh, In h (local_handles p) -> nth_error gs (Z.to_nat h) = Some gh ->
+     ps_last_sent_out p < hlen (fst gh) /\
+     forall f, ps_last_sent_out p < f ->
+       out_entry p f h = if f <? hlen (fst gh) then Some (mkpi f (hval (fst gh) f)) else None }.
+Definition OIg (p : p2p) (gs : list ghost) : Prop := ps_remotes p <> [] -> OI p gs.
+
+Lemma OI_same : forall p p' gs gs', OI p gs -> ps_outgoing p' = ps_outgoing p -> ps_last_sent_out p' = ps_last_sent_out p ->
+  local_handles p' = local_handles p -> map fst gs' = map fst gs -> OI p' gs'.
+Proof.
+  intros p p' gs gs' [A B C D] E1 E2 E3 E4.
+  constructor; unfold out_entry in *; rewrite ?E1, ?E2, ?E3; try assumption.
+  intros h gh Hin Hg.
+  assert (exists gh0, nth_error gs (Z.to_nat h) = Some gh0 /\ fst gh0 = fst gh) as (gh0 & G0 & G1).
+  { pose proof (f_equal (fun l => nth_error l (Z.to_nat h)) E4) as X. cbv beta in X. unfold ghost in *. rewrite !nth_error_map, Hg in X.
+    destruct (nth_error gs (Z.to_nat h)) as [gh0|]; [|discriminate]. exists gh0. split; [reflexivity|]. cbn in X. congruence. }
+  rewrite <- G1. exact (D h gh0 Hin G0).
+Qed.
+
+Lemma zrange_ge : forall n a h, In h (zrange_from a n) -> a <= h.
+Proof. induction n as [|n IH]; intros a h H; cbn [zrange_from In] in H; [contradiction|]. destruct H as [<-|H]; [lia|]. apply IH in H. lia. Qed.
+Lemma local_handles_ge : forall p h, In h (local_handles p) -> 0 <= h.
+Proof. intros p h H. unfold local_handles in H. apply filter_In in H. destruct H as [H _]. apply zrange_ge in H. exact H. Qed.
+
+Lemma queue_outgoing_entry : forall p h i p', ps_remotes p <> [] -> queue_outgoing p h i = Ok p' ->
+  out_only p p' /\ ps_last_sent_out p' = ps_last_sent_out p /\
+  (keys_sorted (ps_outgoing p) -> keys_sorted (ps_outgoing p')) /\
+  (forall f m', assoc_get (ps_outgoing p') f = Some m' -> f = pi_frame i \/ exists m, assoc_get (ps_outgoing p) f = Some m) /\
+  forall f' h', out_entry p' f' h' = if (f' =? pi_frame i) && (h' =? h) then Some i else out_entry p f' h'.
+Proof.
+  intros p h i p' Hr H. unfold queue_outgoing in H. destruct (pi_frame i =? NULL); [discriminate|].
+  destruct (ps_remotes p) eqn:Er; [congruence|]. injection H as <-.
+  split; [apply out_only_with|]. split; [reflexivity|]. cbn [with_outgoing ps_outgoing].
+  split; [apply assoc_put_sorted|]. split.
+  - intros f m' G. rewrite assoc_get_put in G. destruct (Z.eqb_spec (pi_frame i) f); [left; congruence|right; eauto].
+  - intros f' h'. unfold out_entry. cbn [with_outgoing ps_outgoing]. rewrite assoc_get_put.
+    destruct (Z.eqb_spec (pi_frame i) f') as [<-|Hne].
+    + rewrite Z.eqb_refl. cbn [andb]. rewrite assoc_get_put. destruct (Z.eqb_spec h h') as [<-|Hh].
+      * rewrite Z.eqb_refl. reflexivity.
+      * destruct (Z.eqb_spec h' h); [congruence|]. destruct (assoc_get (ps_outgoing p) (pi_frame i)); reflexivity.
+    + destruct (Z.eqb_spec f' (pi_frame i)); [congruence|]. reflexivity.
+Qed.
+
+Lemma queue_blanks_entry : forall n p h f0 p', ps_remotes p <> [] -> queue_blanks n p h f0 = Ok p' ->
+  out_only p p' /\ ps_last_sent_out p' = ps_last_sent_out p /\
+  (keys_sorted (ps_outgoing p) -> keys_sorted (ps_outgoing p')) /\
+  (forall f m', assoc_get (ps_outgoing p') f = Some m' -> f0 <= f < f0 + Z.of_nat n \/ exists m, assoc_get (ps_outgoing p) f = Some m) /\
+  forall f' h', out_entry p' f' h' = if (f0 <=? f') && (f' <? f0 + Z.of_nat n) && (h' =? h) then Some (blank f') else out_entry p f' h'.
+Proof.
+  induction n as [|n IH]; intros p h f0 p' Hr H; cbn [queue_blanks] in H.
+  - injection H as <-. split; [apply out_only_refl|]. split; [reflexivity|]. split; [tauto|]. split; [eauto|].
+    intros f' h'. assert ((f0 <=? f') && (f' <? f0 + Z.of_nat 0) = false) as -> by lia. reflexivity.
+  - destruct (queue_outgoing p h (blank f0)) as [p1| |] eqn:E1; cbn [res_bind] in H; try discriminate.
+    destruct (queue_outgoing_entry p h (blank f0) p1 Hr E1) as (O1 & L1 & S1 & K1 & En1).
+    assert (Hr1 : ps_remotes p1 <> []) by (rewrite O1; exact Hr).
+    destruct (IH p1 h (f0 + 1) p' Hr1 H) as (O2 & L2 & S2 & K2 & En2).
+    split; [eapply out_only_trans; eassumption|]. split; [congruence|]. split; [tauto|]. split.
+    + intros f m' G. destruct (K2 f m' G) as [R|(m & G1)]; [left; lia|].
+      destruct (K1 f m G1) as [R|R]; [left; cbn [blank pi_frame] in R; lia|right; exact R].
+    + intros f' h'. rewrite En2, En1. cbn [blank pi_frame].
+      destruct (Z.eqb_spec h' h) as [->|Hh]; rewrite ?andb_false_r, ?andb_true_r; [|reflexivity].
+      destruct (Z.eqb_spec f' f0) as [->|Hf].
+      * assert ((f0 + 1 <=? f0) = false) as -> by lia. assert ((f0 <=? f0) && (f0 <? f0 + Z.of_nat (S n)) = true) as -> by lia. reflexivity.
+      * destruct ((f0 + 1 <=? f') && (f' <? f0 + 1 + Z.of_nat n)) eqn:E.
+        -- assert ((f0 <=? f') && (f' <? f0 + Z.of_nat (S n)) = true) as -> by lia. reflexivity.
+        -- assert ((f0 <=? f') && (f' <? f0 + Z.of_nat (S n)) = false) as -> by lia. reflexivity.
+Qed.
+
+Lemma hval_app_l : forall hist ext f, 0 <= f < hlen hist -> hval (hist ++ ext) f = hval hist f.
+Proof. intros hist ext f H. unfold hval, hlen in *. apply app_nth1. lia. Qed.
+
+(* one player's history grows by [ext]; exactly the new frames are queued for it *)
+Lemma OI_extend : forall p p' gs h hist low ext,
+  OI p gs -> In h (local_handles p) -> nth_error gs (Z.to_nat h) = Some (hist, low) ->
+  local_handles p' = local_handles p -> ps_last_sent_out p' = ps_last_sent_out p ->
+  keys_sorted (ps_outgoing p') ->
+  (forall f m', assoc_get (ps_outgoing p') f = Some m' -> hlen hist <= f \/ exists m, assoc_get (ps_outgoing p) f = Some m) ->
+  (forall f' h', out_entry p' f' h' =
+     if (hlen hist <=? f') && (f' <? hlen hist + hlen ext) && (h' =? h) then Some (mkpi f' (hval (hist ++ ext) f')) else out_entry p f' h') ->
+  OI p' (updz gs (Z.to_nat h) (hist ++ ext, low)).
+Proof.
+  intros p p' gs h hist low ext [A B C D] Hin Hg El Es Hso Hk He.
+  destruct (D h (hist, low) Hin Hg) as (D1 & D2). cbn [fst] in D1, D2.
+  pose proof (local_handles_ge _ _ Hin) as Hh0.
+  assert (Hhl : (Z.to_nat h < length gs)%nat) by (apply nth_error_Some; congruence).
+  constructor.
+  - exact Hso.
+  - rewrite Es. exact B.
+  - intros f m' G. rewrite Es. destruct (Hk f m' G) as [R|(m & R)]; [lia|eapply C; exact R].
+  - intros h0 gh Hin0 Hg0. rewrite El in Hin0. rewrite Es. pose proof (local_handles_ge _ _ Hin0) as Hh00.
+    destruct (Z.eq_dec h0 h) as [->|Hne].
+    + rewrite nth_error_updz_same in Hg0 by exact Hhl. injection Hg0 as <-. cbn [fst].
+      assert (Hla : hlen (hist ++ ext) = hlen hist + hlen ext) by (unfold hlen; rewrite app_length; lia).
+      assert (0 <= hlen ext) by (unfold hlen; lia).
+      split; [lia|]. intros f Hf. rewrite He, Z.eqb_refl, andb_true_r, (D2 f Hf), Hla.
+      destruct (Z.ltb_spec f (hlen hist)).
+      * assert ((hlen hist <=? f) = false) as -> by lia. cbn [andb].
+        assert ((f <? hlen hist + hlen ext) = true) as -> by lia.
+        rewrite hval_app_l by (unfold NULL in *; lia). reflexivity.
+      * assert ((hlen hist <=? f) = true) as -> by lia. cbn [andb]. destruct (f <? hlen hist + hlen ext); reflexivity.
+    + rewrite nth_error_updz_other in Hg0 by lia.
+      destruct (D h0 gh Hin0 Hg0) as (E1 & E2). split; [exact E1|]. intros f Hf. rewrite He.
+      destruct (Z.eqb_spec h0 h); [congruence|]. rewrite andb_false_r. apply E2. exact Hf.
+Qed.
+
+Lemma hval_fill : forall kf v f, 0 <= f <= Z.of_nat kf -> hval (repeat 0 kf ++ [v]) f = if f =? Z.of_nat kf then v else 0.
+Proof.
+  intros kf v f H. unfold hval. destruct (Z.eqb_spec f (Z.of_nat kf)) as [->|Hne].
+  - rewrite Nat2Z.id, app_nth2 by (rewrite repeat_length; lia). rewrite repeat_length, Nat.sub_diag. reflexivity.
+  - rewrite app_nth1 by (rewrite repeat_length; lia). apply nth_repeat.
+Qed.
+
+(* the outgoing bookkeeping of one iteration of register_local_inputs *)
+Lemma register_out : forall p1 p2 p4 gs h hist low kf v actual st',
+  OI p1 gs -> In h (local_handles p1) -> nth_error gs (Z.to_nat h) = Some (hist, low) ->
+  ps_remotes p1 <> [] -> cs_last (stat_at p1 h) = hlen hist - 1 ->
+  (if cs_last (stat_at p1 h) =? NULL then queue_blanks (Z.to_nat actual) p1 h 0 else Ok p1) = Ok p2 ->
+  queue_outgoing (with_status p2 st') h (mkpi actual v) = Ok p4 ->
+  actual = hlen hist + Z.of_nat kf -> (hist = [] \/ kf = 0%nat) ->
+  OI p4 (updz gs (Z.to_nat h) (hist ++ repeat 0 kf ++ [v], low)).
+Proof.
+  intros p1 p2 p4 gs h hist low kf v actual st' HOI Hin Hg Hr Hcs Eb E4 Hact Hcase.
+  assert (Hb : out_only p1 p2 /\ ps_last_sent_out p2 = ps_last_sent_out p1 /\
+               (keys_sorted (ps_outgoing p1) -> keys_sorted (ps_outgoing p2)) /\
+               (forall f m', assoc_get (ps_outgoing p2) f = Some m' -> hlen hist <= f \/ exists m, assoc_get (ps_outgoing p1) f = Some m) /\
+               forall f' h', out_entry p2 f' h' = if (hlen hist <=? f') && (f' <? actual) && (h' =? h) then Some (blank f') else out_entry p1 f' h').
+  { destruct (Z.eqb_spec (cs_last (stat_at p1 h)) NULL) as [En|En].
+    - assert (hlen hist = 0) by (unfold NULL in *; lia).
+      destruct (queue_blanks_entry _ _ _ _ _ Hr Eb) as (O & L & S & K & E).
+      split; [exact O|]. split; [exact L|]. split; [exact S|]. split.
+      + intros f m' G. destruct (K f m' G) as [R|R]; [left; lia|right; exact R].
+      + intros f' h'. rewrite E. rewrite Z2Nat.id by lia. replace (0 + actual) with actual by lia. replace (hlen hist) with 0 by lia. reflexivity.
+    - injection Eb as <-. split; [apply out_only_refl|]. split; [reflexivity|]. split; [tauto|]. split; [eauto|].
+      intros f' h'. destruct Hcase as [-> | ->]; [unfold hlen, NULL in *; cbn [length] in *; lia|].
+      assert ((hlen hist <=? f') && (f' <? actual) = false) as -> by lia. reflexivity. }
+  destruct Hb as (O2 & L2 & S2 & K2 & En2).
+  assert (Hr2 : ps_remotes (with_status p2 st') <> []) by (rewrite O2; exact Hr).
+  destruct (queue_outgoing_entry _ _ _ _ Hr2 E4) as (O4 & L4 & S4 & K4 & En4). cbn [pi_frame] in K4, En4.
+  assert (Hext : hlen (repeat 0 kf ++ [v]) = Z.of_nat kf + 1) by (unfold hlen; rewrite app_length, repeat_length; cbn [length]; lia).
+  apply (OI_extend p1 p4 gs h hist low (repeat 0 kf ++ [v]) HOI Hin Hg).
+  - rewrite O4, O2. reflexivity.
+  - rewrite L4. cbn [with_status ps_last_sent_out]. exact L2.
+  - apply S4. cbn [with_status ps_outgoing]. apply S2. exact (oi_sorted _ _ HOI).
+  - intros f m' G. destruct (K4 f m' G) as [->|(m & R)]; [left; lia|]. cbn [with_status ps_outgoing] in R. eapply K2. exact R.
+  - intros f' h'. rewrite En4. change (out_entry (with_status p2 st') f' h') with (out_entry p2 f' h'). rewrite En2, Hext.
+    destruct (Z.eqb_spec h' h) as [->|Hh]; rewrite ?andb_false_r, ?andb_true_r; [|reflexivity].
+    assert (0 <= hlen hist) by (unfold hlen; lia).
+    destruct (Z.eqb_spec f' actual) as [->|Hf].
+    + assert ((hlen hist <=? actual) && (actual <? hlen hist + (Z.of_nat kf + 1)) = true) as -> by lia.
+      f_equal. f_equal. unfold hval. rewrite app_nth2 by (unfold hlen in *; lia).
+      replace (Z.to_nat actual - length hist)%nat with kf by (unfold hlen in *; lia).
+      rewrite app_nth2 by (rewrite repeat_length; lia). rewrite repeat_length, Nat.sub_diag. reflexivity.
+    + destruct ((hlen hist <=? f') && (f' <? actual)) eqn:E.
+      * assert ((hlen hist <=? f') && (f' <? hlen hist + (Z.of_nat kf + 1)) = true) as -> by lia.
+        unfold blank. f_equal. f_equal. unfold hval. rewrite app_nth2 by (unfold hlen in *; lia).
+        replace (nth (Z.to_nat f' - length hist) (repeat 0 kf ++ [v]) 0) with (hval (repeat 0 kf ++ [v]) (f' - hlen hist))
+          by (unfold hval, hlen; f_equal; lia).
+        rewrite hval_fill by lia. destruct (Z.eqb_spec (f' - hlen hist) (Z.of_nat kf)); [lia|reflexivity].
+      * assert ((hlen hist <=? f') && (f' <? hlen hist + (Z.of_nat kf + 1)) = false) as -> by lia. reflexivity.
+Qed.
+
+(* one round of inputs sent to the remotes: a frame f and, for every local player, the value its queue holds for f *)
+Definition round_ok (locals : list Z) (gs : list ghost) (f : Z) (m : list (Z * pinput)) : Prop :=
+  forall h gh, In h locals -> nth_error gs (Z.to_nat h) = Some gh ->
+    f < hlen (fst gh) /\ assoc_get m h = Some (mkpi f (hval (fst gh) f)).
+Definition rounds_ok (locals : list Z) (gs : list ghost) (rounds : list (list (Z * pinput))) : Prop :=
+  Forall (fun m => exists f, 0 <= f /\ round_ok locals gs f m) rounds.
+
+Lemma complete_spec : forall locals m, complete locals m = true <-> forall h, In h locals -> exists i, assoc_get m h = Some i.
+Proof.
+  intros locals m. unfold complete. rewrite forallb_forall. split; intros H h Hin; specialize (H h Hin).
+  - destruct (assoc_get m h); [eauto|discriminate].
+  - destruct H as (i & ->). reflexivity.
+Qed.
+
+Lemma send_ready_go_out : forall n p o p' o' gs,
+  send_ready_go n p (local_handles p) o = Ok (p', o') -> OI p gs -> local_handles p <> [] ->
+  (forall h, In h (local_handles p) -> exists gh, nth_error gs (Z.to_nat h) = Some gh) ->
+  OI p' gs /\ out_only p p' /\ exists rounds, o_remote_sends o' = o_remote_sends o ++ rounds /\ o_requests o' = o_requests o /\
+    o_spec_sends o' = o_spec_sends o /\ rounds_ok (local_handles p) gs rounds.
+Proof.
+  induction n as [|n IH]; intros p o p' o' gs H HOI Hne Hgs; cbn [send_ready_go] in H.
+  - injection H as <- <-. split; [exact HOI|]. split; [apply out_only_refl|]. exists []. rewrite app_nil_r. repeat split. constructor.
+  - destruct (next_complete p (local_handles p)) as [f|] eqn:En.
+    2:{ injection H as <- <-. split; [exact HOI|]. split; [apply out_only_refl|]. exists []. rewrite app_nil_r. repeat split. constructor. }
+    pose proof HOI as [A B C D].
+    (* the frame is the one after the last frame sent, and every local player has its input for it queued *)
+    assert (Hf : f = ps_last_sent_out p + 1 /\ exists m, assoc_get (ps_outgoing p) f = Some m /\ complete (local_handles p) m = true).
+    { unfold next_complete in En. destruct (Z.eqb_spec (ps_last_sent_out p) NULL) as [E0|E0].
+      - destruct (find _ _) as [[f0 m0]|] eqn:Ef; [|discriminate]. injection En as ->.
+        destruct (find_first_sorted _ _ _ _ A Ef) as (G1 & G2 & G3). cbn [snd] in G2.
+        split; [|eauto]. pose proof (C _ _ G1) as Hlt.
+        destruct (Z.eq_dec f 0) as [->|Hnz]; [unfold NULL in *; lia|exfalso].
+        assert (exists h0, In h0 (local_handles p)) as (h0 & Hin0) by (destruct (local_handles p); [congruence|eexists; left; reflexivity]).
+        (* frame 0 is queued for every local player too *)
+        assert (H0 : forall h, In h (local_handles p) -> out_entry p 0 h <> None).
+        { intros h Hin. destruct (Hgs h Hin) as (gh & Hg). destruct (D h gh Hin Hg) as (_ & D2).
+          rewrite (D2 0) by (unfold NULL in *; lia).
+          rewrite complete_spec in G2. destruct (G2 h Hin) as (i & Gi).
+          pose proof (D2 f Hlt) as X. unfold out_entry in X. rewrite G1, Gi in X.
+          destruct (Z.ltb_spec f (hlen (fst gh))); [|discriminate].
+          assert ((0 <? hlen (fst gh)) = true) as -> by (unfold NULL in *; lia). discriminate. }
+        pose proof (H0 h0 Hin0) as X. unfold out_entry in X.
+        destruct (assoc_get (ps_outgoing p) 0) as [m'|] eqn:G0; [|congruence].
+        assert (Hc : complete (local_handles p) (snd (0, m')) = true).
+        { cbn [snd]. rewrite complete_spec. intros h Hin. specialize (H0 h Hin). unfold out_entry in H0. rewrite G0 in H0.
+          destruct (assoc_get m' h); [eauto|congruence]. }
+        rewrite (G3 0 m' ltac:(unfold NULL in *; lia) G0) in Hc. discriminate.
+      - destruct (assoc_get (ps_outgoing p) (ps_last_sent_out p + 1)) as [m0|] eqn:G1; [|discriminate].
+        destruct (complete (local_handles p) m0) eqn:Ec; [|discriminate]. injection En as <-. split; [reflexivity|eauto]. }
+    destruct Hf as (Hf & m & Gm & Hcm). rewrite Gm in H.
+    set (p1 := with_outgoing p (assoc_del (ps_outgoing p) f) f) in *.
+    set (o1 := if existsb ev_running (ps_remotes p) then add_rsend o m else o) in *.
+    (* the round *)
+    assert (Hround : round_ok (local_handles p) gs f m).
+    { intros h gh Hin Hg. destruct (D h gh Hin Hg) as (_ & D2). pose proof (D2 f ltac:(lia)) as X. unfold out_entry in X. rewrite Gm in X.
+      rewrite complete_spec in Hcm. destruct (Hcm h Hin) as (i & Gi). rewrite Gi in X.
+      destruct (Z.ltb_spec f (hlen (fst gh))); [|discriminate]. split; [assumption|]. rewrite Gi. exact X. }
+    assert (HOI1 : OI p1 gs).
+    { subst p1. constructor; cbn [with_outgoing ps_outgoing ps_last_sent_out].
+      - apply assoc_del_sorted. exact A.
+      - lia.
+      - intros f' m' G. rewrite assoc_get_del in G by exact A. destruct (Z.eqb_spec f f'); [discriminate|]. pose proof (C _ _ G). lia.
+      - intros h gh Hin Hg. change (local_handles (with_outgoing p (assoc_del (ps_outgoing p) f) f)) with (local_handles p) in Hin.
+        destruct (Hround h gh Hin Hg) as (R1 & _). split; [exact R1|].
+        intros f' Hf'. destruct (D h gh Hin Hg) as (_ & D2). rewrite <- (D2 f') by lia.
+        unfold out_entry. cbn [with_outgoing ps_outgoing]. rewrite assoc_get_del by exact A.
+        destruct (Z.eqb_spec f f'); [lia|reflexivity]. }
+    change (local_handles p) with (local_handles p1) in H.
+    destruct (IH p1 o1 p' o' gs H HOI1 Hne Hgs) as (HOI' & Oo & rounds & R1 & R2 & R3 & R4).
+    split; [exact HOI'|]. split; [eapply out_only_trans; [apply out_only_with|exact Oo]|].
+    subst o1. destruct (existsb ev_running (ps_remotes p)).
+    + exists (m :: rounds). cbn [add_rsend o_remote_sends o_requests o_spec_sends] in R1, R2, R3.
+      rewrite R1, <- app_assoc. split; [reflexivity|]. split; [exact R2|]. split; [exact R3|].
+      constructor; [|exact R4]. exists f. split; [unfold NULL in *; lia|exact Hround].
+    + exists rounds. split; [exact R1|]. split; [exact R2|]. split; [exact R3|exact R4].
+Qed.
+
 (* ---------- register_local_inputs ---------- *)
 Lemma Forall_updz {A} (P : A -> Prop) : forall l i x, Forall P l -> P x -> Forall P (updz l i x).
 Proof. induction l as [|y l IH]; intros [|i] x H Hx; inversion H; subst; cbn [updz]; constructor; auto. Qed.
@@ -424,7 +775,7 @@ Lemma register_tail : forall sp w d p gs h v r q q' hist hist' low,
     (forall h', h' <> h -> 0 <= h' -> Done (s_current (ps_sync p)) d (s_queues (ps_sync p)) gs h' ->
                 Done (s_current (ps_sync p)) d (s_queues (ps_sync p')) gs' h') /\
     grows_all (s_current (ps_sync p)) (s_queues (ps_sync p)) gs (s_queues (ps_sync p')) gs' /\
-    hist_step d (ps_pending p) [h] gs gs'.
+    hist_step d (ps_pending p) [h] gs gs' /\ (OIg p gs -> OIg p' gs').
 Proof.
   intros sp w d p gs h v r q q' hist hist' low HQS Hcl Hh Hk Eq Eg Hpn Hfq I' D' U' R' F' P' Hlen' Hle Hreach pi kf Hpi Hv Hext Hkk p1 actual.
   pose proof HQS as [Hw Hd Hmode Hn Hconn Hgos HQ Hlast Hfr Hkinds Hpe Hsok].
@@ -489,7 +840,7 @@ Proof.
   split.
   { rewrite O4, HpA. subst pA p1. unfold p_rest. cbn. repeat split. }
   split; [rewrite Hs4; reflexivity|]. split; [rewrite Hs4; reflexivity|].
-  split; [|split; [|split]].
+  split; [|split; [|split; [|split]]].
   - intros q0 gh0 B C. rewrite Hs4 in B. cbn [with_queues s_queues] in B. subst gs'.
     rewrite nth_error_updz_same in B by lia. rewrite nth_error_updz_same in C by lia.
     injection B as <-. injection C as <-. cbn [fst]. split; [exact Hlen'|exact U'].
@@ -509,6 +860,25 @@ Proof.
     + subst h0. rewrite nth_error_updz_same in C by lia. injection C as <-. exists (hist, low). split; [exact Eg|].
       right. split; [left; lia|]. exists pi, kf. rewrite Z2Nat.id by lia. cbn [fst]. split; [exact Hpi|]. split; [rewrite <- Hv; exact Hext|exact Hkk].
     + rewrite nth_error_updz_other in C by exact Eh. exists gh0. split; [exact C|left; reflexivity].
+  - (* the outgoing bookkeeping *)
+    intros HO Hr4.
+    assert (Hr : ps_remotes p <> []) by (rewrite O4, HpA in Hr4; exact Hr4).
+    specialize (HO Hr). subst gs'. rewrite Hext.
+    assert (Hnp : ps_nplayers p = Z.of_nat (length (ps_kinds p))) by lia.
+    assert (Hinl : In h (local_handles p)).
+    { apply (local_handles_spec p h Hnp). split; [|exact Hk]. lia. }
+    destruct (nth_error (ps_status p) (Z.to_nat h)) as [sth|] eqn:Est; [|apply nth_error_None in Est; lia].
+    pose proof (Forall2_nth _ _ _ _ _ _ Hlast Est Eg) as Hcl0. cbn [fst] in Hcl0.
+    apply (register_out p1 p2 p4 gs h hist low kf v actual st').
+    + eapply OI_same; [exact HO|reflexivity|reflexivity|reflexivity|reflexivity].
+    + exact Hinl.
+    + exact Eg.
+    + exact Hr.
+    + unfold stat_at. subst p1. cbn [with_sync ps_status]. erewrite nth_error_nth; [|exact Est]. exact Hcl0.
+    + exact Eb.
+    + exact E4.
+    + rewrite Hext, hlen_fill in Hlen'. subst actual. fold c. lia.
+    + destruct Hkk as [(-> & _)| ->]; [left; reflexivity|right; reflexivity].
 Qed.
 
 (* one iteration of register_local_inputs for a local handle with a pending input *)
@@ -523,7 +893,7 @@ Lemma register_step : forall sp w d p gs h pi r,
     (forall h', h' <> h -> 0 <= h' -> Done (s_current (ps_sync p)) d (s_queues (ps_sync p)) gs h' ->
                 Done (s_current (ps_sync p)) d (s_queues (ps_sync p')) gs' h') /\
     grows_all (s_current (ps_sync p)) (s_queues (ps_sync p)) gs (s_queues (ps_sync p')) gs' /\
-    hist_step d (ps_pending p) [h] gs gs'.
+    hist_step d (ps_pending p) [h] gs gs' /\ (OIg p gs -> OIg p' gs').
 Proof.
   intros sp w d p gs h pi r HQS Hcl Hh Hk Hpend.
   pose proof HQS as [Hw Hd Hmode Hn Hconn Hgos HQ Hlast Hfr Hkinds Hpe].
@@ -592,7 +962,7 @@ Proof.
     split; [reflexivity|]. split; [reflexivity|]. split; [|split].
     + intros q0 gh0 B C. rewrite Eq in B. rewrite Eg in C. injection B as <-. injection C as <-. cbn [fst]. split; assumption.
     + intros h' _ _ Hdone. exact Hdone.
-    + split; [apply grows_all_refl|apply hist_step_refl].
+    + split; [apply grows_all_refl|split; [apply hist_step_refl|tauto]].
 Qed.
 
 Lemma register_go_progress : forall sp hs w d p gs,
@@ -604,20 +974,20 @@ Lemma register_go_progress : forall sp hs w d p gs,
     (forall h, 0 <= h -> In h hs \/ Done (s_current (ps_sync p)) d (s_queues (ps_sync p)) gs h ->
                Done (s_current (ps_sync p)) d (s_queues (ps_sync p')) gs' h) /\
     grows_all (s_current (ps_sync p)) (s_queues (ps_sync p)) gs (s_queues (ps_sync p')) gs' /\
-    hist_step d (ps_pending p) hs gs gs'.
+    hist_step d (ps_pending p) hs gs gs' /\ (OIg p gs -> OIg p' gs').
 Proof.
   intros sp. induction hs as [|h r IH]; intros w d p gs HQS Hcl Hnd Hall.
   - exists p, gs. cbn [register_go]. split; [reflexivity|]. split; [exact HQS|]. split; [exact Hcl|].
-    split; [apply p_rest_refl|]. split; [reflexivity|]. split; [reflexivity|]. split; [|split; [apply grows_all_refl|apply hist_step_refl]].
+    split; [apply p_rest_refl|]. split; [reflexivity|]. split; [reflexivity|]. split; [|split; [apply grows_all_refl|split; [apply hist_step_refl|tauto]]].
     intros h _ [[]|H]. exact H.
   - inversion Hall as [|? ? (Hh & Hk & pi & Hpe) Hall']; subst. inversion Hnd as [|? ? Hnin Hnd']; subst.
-    destruct (register_step sp w d p gs h pi r HQS Hcl Hh Hk Hpe) as (p1 & gs1 & E1 & HQ1 & Hcl1 & Hr1 & Hc1 & HL1 & Hd1 & Ht1 & Hg1 & Hh1).
+    destruct (register_step sp w d p gs h pi r HQS Hcl Hh Hk Hpe) as (p1 & gs1 & E1 & HQ1 & Hcl1 & Hr1 & Hc1 & HL1 & Hd1 & Ht1 & Hg1 & Hh1 & Ho1).
     rewrite E1.
     assert (Hpend1 : ps_pending p1 = ps_pending p) by (destruct Hr1 as (_ & _ & _ & _ & _ & _ & _ & _ & _ & Hp1 & _); exact Hp1).
     assert (Hall1 : Forall (fun h => 0 <= h /\ nth_error (ps_kinds p1) (Z.to_nat h) = Some KLocal /\
                                      exists pi, assoc_get (ps_pending p1) h = Some pi) r).
     { destruct Hr1 as (_ & _ & _ & _ & _ & Hk1 & _ & _ & _ & Hp1 & _). rewrite Hk1, Hp1. exact Hall'. }
-    destruct (IH w d p1 gs1 HQ1 Hcl1 Hnd' Hall1) as (p' & gs' & E & HQ' & Hcl' & Hr' & Hc' & HL' & Hd' & Hg' & Hh').
+    destruct (IH w d p1 gs1 HQ1 Hcl1 Hnd' Hall1) as (p' & gs' & E & HQ' & Hcl' & Hr' & Hc' & HL' & Hd' & Hg' & Hh' & Ho').
     exists p', gs'. split; [exact E|]. split; [exact HQ'|]. split; [exact Hcl'|].
     split; [eapply p_rest_trans; eassumption|]. split; [congruence|]. split; [congruence|].
     split; [|split; [rewrite Hc1 in Hg'; eapply grows_all_trans; eassumption|]].
@@ -626,7 +996,7 @@ Proof.
       * apply Hd'; [exact Hh0|]. right. exact Hd1.
       * apply Hd'; [exact Hh0|]. destruct Hin as [[->|Hin]|Hdone]; [congruence|left; exact Hin|].
         right. apply Ht1; assumption.
-    + rewrite Hpend1 in Hh'. eapply hist_step_cons; eassumption.
+    + split; [rewrite Hpend1 in Hh'; eapply hist_step_cons; eassumption|]. intros HO. apply Ho', Ho1, HO.
 Qed.
 
 (* ---------- moving the invariant across a change of the sync layer ---------- *)
@@ -683,33 +1053,6 @@ Lemma KI_local_reach : forall c d q hist, 0 <= d -> KI c d KLocal q hist -> c <=
 Proof.
   intros c d q hist Hd (A & B & [(C & _ & E)|[(C & _ & E)|(C & _)]]); [subst hist; unfold hlen; cbn; lia|lia|lia].
 Qed.
-
-(* ---------- the local handles ---------- *)
-Lemma zrange_in : forall n a h, In h (zrange_from a n) <-> a <= h < a + Z.of_nat n.
-Proof.
-  induction n as [|n IH]; intros a h; cbn [zrange_from In].
-  - split; [intros []|lia].
-  - rewrite IH. lia.
-Qed.
-
-Lemma local_handles_spec : forall p h, ps_nplayers p = Z.of_nat (length (ps_kinds p)) ->
-  (In h (local_handles p) <-> 0 <= h < ps_nplayers p /\ nth_error (ps_kinds p) (Z.to_nat h) = Some KLocal).
-Proof.
-  intros p h Hn. unfold local_handles. rewrite filter_In, zrange_in. unfold kind_at.
-  split.
-  - intros (Hr & Hk). assert ((h <? 0) = false) as E1 by lia. assert ((h <? ps_nplayers p) = true) as E2 by lia.
-    rewrite E1, E2 in Hk. split; [lia|]. destruct (nth_error (ps_kinds p) (Z.to_nat h)) as [[| |]|]; try discriminate. reflexivity.
-  - intros (Hr & Hk). split; [lia|]. assert ((h <? 0) = false) as -> by lia. assert ((h <? ps_nplayers p) = true) as -> by lia.
-    rewrite Hk. reflexivity.
-Qed.
-
-Lemma zrange_nodup : forall n a, NoDup (zrange_from a n).
-Proof.
-  induction n as [|n IH]; intros a; cbn [zrange_from]; constructor; [|apply IH].
-  rewrite zrange_in. lia.
-Qed.
-Lemma local_handles_nodup : forall p, NoDup (local_handles p).
-Proof. intros p. unfold local_handles. apply NoDup_filter. apply zrange_nodup. Qed.
 
 Lemma QS_nplayers : forall sp w d p gs, QSg sp w d p gs -> ps_nplayers p = Z.of_nat (length (ps_kinds p)).
 Proof. intros sp w d p gs H. destruct (qs_n _ _ _ _ H) as (A & _ & B & _). lia. Qed.
@@ -1056,7 +1399,7 @@ Proof.
   { apply Forall_forall. intros h Hin. pose proof Hin as Hin2. apply (local_handles_spec p3 h Hnp3) in Hin2.
     destruct Hin2 as (Hr & Hk). split; [lia|]. split; [exact Hk|]. apply Hpend3. exact Hin. }
   destruct (register_go_progress sp (local_handles p3) w d p3 gs3 HQS3 Hcl3 (local_handles_nodup p3) Hall)
-    as (p4 & gs4 & E4 & HQS4 & Hcl4 & Hrest4 & Hc4 & HL4 & Hdone4 & _ & Hhs4).
+    as (p4 & gs4 & E4 & HQS4 & Hcl4 & Hrest4 & Hc4 & HL4 & Hdone4 & _ & Hhs4 & _).
   pose proof (register_go_frame _ _ _ E4) as (_ & _ & ((_ & _ & Hsv4) & _)).
   assert (Hgrow : hlens_grow gs gs4).
   { intros h g4 A. destruct (hist_step_hlens _ _ _ _ _ Hhs4 h g4 A) as (g3 & B & C).
